@@ -574,14 +574,21 @@ def gen(tier, rng):
     k = 0
     for db in dbs:
         for cl in cls:
-            for m in ((1, 2) if not thorough else (1, 2, 3)):
+            long = len(cl) > 3                    # thorough only, strided (memory: ~4 kB per case in core.py)
+            for m in ((1, 2) if (not thorough or long) else (1, 2, 3)):
                 if m > max(1, len(db)):
                     continue
                 k += 1
+                if long:
+                    if k % 8 == 0:
+                        yield ('exhaustive', 3, [db, cl, m])
+                    if k % 32 == 0:
+                        yield ('exhaustive', 6, [db, cl, m, 0])
+                    continue
                 yield ('exhaustive', 3, [db, cl, m])
                 if thorough or k % 2 == 0 or len(cl) <= 2:
                     yield ('exhaustive', 6, [db, cl, m, 0])
-                if thorough or k % 4 == 0:
+                if k % 4 == 0 or (thorough and k % 2 == 0):
                     yield ('exhaustive', 7, [db, [cl], m])
                     yield ('exhaustive', 10, [db, cl, m])
                 if '*' not in cl and (thorough or k % 3 == 0):
@@ -594,12 +601,15 @@ def gen(tier, rng):
         yield ('exhaustive', 5, [db, []])
         yield ('exhaustive', 7, [db, [], 1])
     if thorough:
-        # N = 4, shorter citation lists
+        # N = 4, shorter citation lists, every 6th combination
+        k4 = 0
         for db in small_dbs(4):
-            for cl in cite_lists(3, ['X1', 'y2', 'z3', 'W4', 'q9', '*']):
+            for cl in cite_lists(2, ['X1', 'y2', 'z3', 'W4', 'q9', '*']):
                 for m in (1, 2, 3):
-                    yield ('exhaustive4', 3, [db, cl, m])
-                    yield ('exhaustive4', 6, [db, cl, m, 0])
+                    k4 += 1
+                    if k4 % 6 == 0:
+                        yield ('exhaustive4', 3, [db, cl, m])
+                        yield ('exhaustive4', 6, [db, cl, m, 0])
     # (b) structured random: larger databases, repeated keys, mixed-case spellings
     def rkey():
         base = rng.choice(['k%d' % rng.randint(1, 9), 'Key%d' % rng.randint(1, 5), rng.choice(['knuth:84', 'Lamport-86', 'x.y', 'ab', 'Q'])])
@@ -633,7 +643,7 @@ def gen(tier, rng):
                 c = sp.setdefault(c.lower(), c)
             out.append(c)
         return out
-    nrand = 2500 if not thorough else 60000
+    nrand = 2500 if not thorough else 8000
     for i in range(nrand):
         db = rdb()
         cl = rcites(db, rng.random() < 0.8)
@@ -656,14 +666,14 @@ def gen(tier, rng):
     for db in dbs:
         for cl in cite_lists(2):
             k += 1
-            if thorough or k % 5 == 0:
+            if k % 5 == 0 or (thorough and k % 2 == 0):
                 m = 1 + k % 2
                 yield ('engines', 9, [db, cl, m, 0])
-                if thorough or k % 25 == 0:
+                if k % 25 == 0 or (thorough and k % 10 == 0):
                     yield ('engines', 8, [db, cl, m, 0])
     # (c) malformed: keys the citation list cannot name, wildcard-like keys, min_crossrefs out of range
     weird = ['*', '**', '', 'a*', 'A', 'a']
-    for i in range(600 if not thorough else 6000):
+    for i in range(600 if not thorough else 2500):
         n = rng.randint(0, 4)
         db = [[rng.choice(weird[:2] + weird[3:]) if rng.random() < 0.5 else rng.choice('abAB'),
                [] if rng.random() < 0.4 else [rng.choice(weird + ['b', 'B'])]] for _ in range(n)]
@@ -684,7 +694,7 @@ RULE = ('exhaustive: every database of N <= 3 entries (keys x1, Y2, z3; each ent
         'end to end (\\bibitem keys of the Python engine, cite$ of every entry for the BibTeX engine). '
         'distinct = distinct (function, argument); non-trivial = the selected list differs from the citation list as given or a report is made.')
 EXHAUSTIVE = {'quick': 'all databases with N <= 3 entries x crossref in {none, each key, dangling} x all citation lists of length <= 3 over 6 symbols x min_crossrefs 1..min(N,2)',
-              'thorough': 'all databases with N <= 3 entries x all citation lists of length <= 4 over 6 symbols x min_crossrefs 1..N; N = 4 x lists of length <= 3'}
+              'thorough': 'all databases with N <= 3 entries x crossref in {none, each key, dangling} x all citation lists of length <= 3 over 6 symbols x min_crossrefs 1..N through add_extra_citations, command_read, the constructor and the parser (format_bibliography / unfiltered selection on every 2nd); lists of length 4 and N = 4 are strided samples, not exhaustive'}
 TRUSTED_BASE = ['modelled (not verified) code: pybtex/database/__init__.py 65-105,179-314 (BibliographyData), pybtex/utils.py CaseInsensitiveSet / OrderedCaseInsensitiveDict, '
                 'pybtex/bibtex/interpreter.py 284-306, pybtex/style/formatting/__init__.py 75-91, pybtex/__init__.py 112-165; the .bib syntax layer is not modelled: a file is the list of its (key, crossref) entries '
                 '(the harness renders each database to .bib text with varied delimiters / field-name case and runs the real parser)']
